@@ -355,9 +355,10 @@ class MNode:
     args += self.tail
     kwargs = {}
     for n, v in self.named.items():
-      if n in sv.index_of and sv.index_of[n] <= last:
-        continue
-      kwargs[n] = v
+      if n in sv.pk and sv.index_of[n] <= last:
+        continue   # already passed positionally
+      kwargs[n] = v  # (a name of a positional-only / *args parameter here is a
+                     # **kwargs entry)
     return args, kwargs, gap_default, unformable
 
 
